@@ -1,69 +1,821 @@
-//! probe stage
-use c2pa::{Context, Reader};
-use serde_json::{json, Value};
+//! C03 — signing round trip: signed output validates and reports what was signed.
+//!
+//! Oracle (from the statement): for a generated well-formed definition D, asset A, signing alg S,
+//! hash alg H, claim version V, settings (compressed, embedded/sidecar/remote+embedded, thumbnails):
+//!   1. `Builder::sign` succeeds;
+//!   2. reading the output back with the fixture roots as trust anchors yields `Trusted`;
+//!   3. the active manifest reports exactly the supplied title / format / claim generator info /
+//!      assertion (label, data) multiset / ingredient list / redactions, after subtracting the
+//!      automatic additions of the RULE TABLE below — every application of a rule is counted in the
+//!      evidence (`rule:*` counters), so a rule that starts firing unexpectedly is visible;
+//!   4. the signature algorithm reported equals S; the claim's `alg` and every digest length found in
+//!      the claim / hard binding (read with the harness's own JUMBF walker + ciborium) match H.
+//! The supplied values are kept by the generator (`vmon::defgen`); nothing of the SDK is used to
+//! compute the expectation.
+//!
+//! RULE TABLE (documented automatic behaviour that is subtracted, each counted):
+//!   auto-action-created      Create intent adds `c2pa.created` as first action (docs/intents.md)
+//!   auto-action-opened       Edit intent adds `c2pa.opened` linked to the parent (docs/intents.md)
+//!   auto-parent-from-source  Edit intent derives the parent ingredient from the source (docs/intents.md)
+//!   actions-label-versioned  `c2pa.actions` is stored under the current versioned label `c2pa.actions.v2`
+//!   hard-binding-hidden      c2pa.hash.* is added by signing and not listed among reported assertions
+//!   cgi-sdk-version-key      claim_generator_info[0] gains `org.contentauth.c2pa_rs`
+//!   cgi-default              no claim_generator_info supplied -> SDK default entry
+//!   label-v1-suffix-dropped  a `.v1` label suffix is the canonical un-suffixed label
+//!   label-instance           repeated labels are distinguished by instance numbers (`__n`)
+//!   claim-thumbnail-auto / ingredient-thumbnail-auto   only when thumbnails are enabled
+//!   v2-claim-has-no-format   claim v2 has no format field: reported format may be absent
+//!   num-float-int            5.0 (CBOR float) == 5 (JSON int) numerically
+//!   ingredient-format-mime   an extension given as ingredient format may be reported as its MIME type
+//!   vendor-label-prefix      `vendor` prefixes the manifest label
+use c2pa::Reader;
+use serde_json::{json, Map, Value};
+use std::collections::BTreeMap;
 use std::io::Cursor;
-use vmon::{assets, defgen, report, signers, Rng};
+use vmon::defgen::{self, GenDef, GenOpts, Intent, IngredientPool};
+use vmon::{assets, jumbf, par, report, signers, Rng, Run};
 
-fn main() {
-    report::quiet_panics();
-    let pool = defgen::ingredient_pool();
-    println!("pool: {:?}", pool.items.iter().map(|i| (&i.name, i.bytes.len(), &i.active_label)).collect::<Vec<_>>());
-    let mut rng = Rng::new(1, "probe");
-    let tiny = assets::tiny_assets();
-    let n: usize = std::env::args().nth(1).and_then(|s| s.parse().ok()).unwrap_or(6);
-    for i in 0..n {
-        let mut opts = defgen::GenOpts::default();
-        opts.big_payloads = false;
-        opts.max_assertions = 4;
-        opts.claim_version = if i % 3 == 2 { Some(1) } else { None };
-        opts.hash_alg = defgen::HASH_ALGS[i % 4];
-        let mut d = defgen::gen_def(&mut rng, &opts, pool.items.len());
-        if i % 2 == 1 {
-            for k in 0..d.ingredients.len() {
-                d.add_redaction(k, &pool);
+const MODES: &[&str] = &["embedded", "sidecar", "remote+embedded"];
+
+#[derive(Clone, Debug, serde::Serialize, serde::Deserialize)]
+struct Cfg {
+    asset: String,
+    /// format string handed to sign()
+    format: String,
+    alg: String,
+    compressed: bool,
+    mode: String,
+    thumbs: bool,
+}
+
+#[derive(Clone, Debug)]
+struct Case {
+    def: GenDef,
+    cfg: Cfg,
+    directed: Option<&'static str>,
+}
+
+#[derive(Default)]
+struct Res {
+    class: String,
+    rules: BTreeMap<String, u64>,
+    unjudged: Vec<String>,
+    violation: Option<(String, String)>,
+    trivial: bool,
+    dump: Option<String>,
+}
+
+/// Acceptable MIME spellings for a format hint (first = canonical); None: no independent mapping.
+fn mimes_of(ext: &str) -> Option<Vec<&'static str>> {
+    Some(match ext {
+        "jpg" | "jpeg" | "image/jpeg" => vec!["image/jpeg"],
+        "png" | "image/png" => vec!["image/png"],
+        "gif" | "image/gif" => vec!["image/gif"],
+        "tif" | "tiff" | "image/tiff" => vec!["image/tiff"],
+        "svg" | "image/svg+xml" => vec!["image/svg+xml"],
+        "mp3" | "audio/mpeg" => vec!["audio/mpeg"],
+        "mp4" | "video/mp4" => vec!["video/mp4"],
+        "webp" | "image/webp" => vec!["image/webp"],
+        "avif" | "image/avif" => vec!["image/avif"],
+        "heif" | "image/heif" => vec!["image/heif"],
+        "jxl" | "image/jxl" => vec!["image/jxl"],
+        "flac" | "audio/flac" => vec!["audio/flac"],
+        "wav" | "audio/wav" => vec!["audio/wav", "audio/x-wav", "audio/wave", "audio/vnd.wave"],
+        _ => return None,
+    })
+}
+
+fn mime_of(ext: &str) -> Option<&'static str> {
+    mimes_of(ext).map(|v| v[0])
+}
+
+fn rule(r: &mut BTreeMap<String, u64>, name: &str) {
+    *r.entry(name.to_string()).or_insert(0) += 1;
+}
+
+/// Equality on decoded values; numbers are compared numerically.
+fn veq(a: &Value, b: &Value, rules: &mut BTreeMap<String, u64>) -> bool {
+    match (a, b) {
+        (Value::Number(x), Value::Number(y)) => {
+            if x == y {
+                return true;
             }
-        }
-        let a = &tiny[i % tiny.len()];
-        let thumbs = i % 4 == 3;
-        let ctx = defgen::context(true, thumbs, i % 5 == 4, &json!({}));
-        println!("==== case {i} asset={} def={}", a.name, d.definition_json());
-        println!("   api-assertions={:?} actions_via_api={} actions={:?} ingredients={:?} intent={:?}", d.assertions.iter().filter(|a| a.via == defgen::Via::Api).map(|a| (&a.label, a.json_kind, a.data.to_string())).collect::<Vec<_>>(), d.actions_via_api, d.actions, d.ingredients, d.intent);
-        let mut b = match d.build(ctx, &pool) {
-            Ok(b) => b,
-            Err(e) => {
-                println!("BUILD ERR {e}");
-                continue;
-            }
-        };
-        let mode = i % 3;
-        if mode == 1 {
-            b.set_no_embed(true);
-        }
-        if mode == 2 {
-            b.set_remote_url("https://verif.invalid/m.c2pa");
-        }
-        let signer = signers::test_signer(signers::ALGS[i % 7].0);
-        let mut s = Cursor::new(a.bytes.clone());
-        let mut o = Cursor::new(Vec::new());
-        match report::catch_sdk(|| b.sign(signer.as_ref(), a.format, &mut s, &mut o)) {
-            Ok(Ok(store)) => {
-                let out = o.into_inner();
-                let ctx = defgen::context(true, false, false, &json!({}));
-                let r = if mode == 1 { Reader::from_context(ctx).with_manifest_data_and_stream(&store, a.format, Cursor::new(out.clone())) } else { Reader::from_context(ctx).with_stream(a.format, Cursor::new(out.clone())) };
-                match r {
-                    Ok(r) => {
-                        let v: Value = serde_json::from_str(&r.json()).unwrap();
-                        let am = v["active_manifest"].as_str().unwrap_or("").to_string();
-                        println!("state={:?} mode={mode} store={} out={} remote={:?} embedded={}", r.validation_state(), store.len(), out.len(), r.remote_url(), r.is_embedded());
-                        println!("{}", serde_json::to_string_pretty(&v["manifests"][&am]).unwrap());
-                        let o = report::outcome_of(Ok(r));
-                        println!("failures={:?}", o.failure_codes());
+            match (x.as_i64(), y.as_i64(), x.as_u64(), y.as_u64()) {
+                (Some(p), Some(q), _, _) => p == q,
+                (_, _, Some(p), Some(q)) => p == q,
+                _ => {
+                    let (p, q) = (x.as_f64(), y.as_f64());
+                    let same = p.is_some() && p == q && (x.is_f64() != y.is_f64());
+                    if same {
+                        rule(rules, "num-float-int");
                     }
-                    Err(e) => println!("READ ERR {e:?}"),
+                    same || (x.is_f64() && y.is_f64() && p == q)
                 }
             }
-            Ok(Err(e)) => println!("SIGN ERR {e:?}"),
-            Err(p) => println!("SIGN PANIC {p}"),
+        }
+        (Value::Array(x), Value::Array(y)) => x.len() == y.len() && x.iter().zip(y.iter()).all(|(p, q)| veq(p, q, rules)),
+        (Value::Object(x), Value::Object(y)) => x.len() == y.len() && x.iter().all(|(k, p)| y.get(k).map(|q| veq(p, q, rules)).unwrap_or(false)),
+        _ => a == b,
+    }
+}
+
+fn strip_instance(l: &str) -> (String, bool) {
+    if let Some(p) = l.rfind("__") {
+        if !l[p + 2..].is_empty() && l[p + 2..].chars().all(|c| c.is_ascii_digit()) {
+            return (l[..p].to_string(), true);
         }
     }
+    (l.to_string(), false)
+}
+
+fn canon_label(l: &str, rules: &mut BTreeMap<String, u64>) -> String {
+    let (l, inst) = strip_instance(l);
+    if inst {
+        rule(rules, "label-instance");
+    }
+    if let Some(s) = l.strip_suffix(".v1") {
+        rule(rules, "label-v1-suffix-dropped");
+        return s.to_string();
+    }
+    l
+}
+
+fn short(v: &Value) -> String {
+    let s = v.to_string();
+    if s.len() > 300 {
+        let mut e = 300;
+        while !s.is_char_boundary(e) {
+            e -= 1;
+        }
+        format!("{}…({} bytes)", &s[..e], s.len())
+    } else {
+        s
+    }
+}
+
+fn cbor_get<'a>(v: &'a ciborium::Value, key: &str) -> Option<&'a ciborium::Value> {
+    v.as_map()?.iter().find(|(k, _)| k.as_text() == Some(key)).map(|(_, v)| v)
+}
+
+/// (claim alg, digest lengths seen in claim assertion refs, hard binding (alg, digest len)) of the
+/// active (= last) manifest, read with the harness's own walker.
+fn claim_hash_facts(store: &[u8]) -> Option<(Option<String>, Vec<usize>, Option<(Option<String>, Option<usize>)>, BTreeMap<String, String>)> {
+    let root = jumbf::parse_store(store)?;
+    let active = *jumbf::manifests(&root).last()?;
+    let mut alg = None;
+    let mut lens = Vec::new();
+    let mut hb = None;
+    let mut kinds: BTreeMap<String, String> = BTreeMap::new();
+    let mut found_claim = false;
+    let mut all = Vec::new();
+    active.walk(&mut all);
+    for b in all {
+        if &b.typ != b"jumb" {
+            continue;
+        }
+        let Some(label) = &b.label else { continue };
+        let content = b.children.iter().find(|c| &c.typ != b"jumd");
+        if label == "c2pa.claim.v2" || label == "c2pa.claim" {
+            let c = b.children.iter().find(|c| &c.typ == b"cbor")?;
+            let v: ciborium::Value = ciborium::from_reader(&store[c.payload_start()..c.end()]).ok()?;
+            found_claim = true;
+            alg = cbor_get(&v, "alg").and_then(|a| a.as_text()).map(|s| s.to_string());
+            for key in ["assertions", "created_assertions", "gathered_assertions"] {
+                if let Some(a) = cbor_get(&v, key).and_then(|a| a.as_array()) {
+                    for e in a {
+                        if let Some(h) = cbor_get(e, "hash").and_then(|h| h.as_bytes()) {
+                            lens.push(h.len());
+                        }
+                    }
+                }
+            }
+        } else if b.path.contains("/c2pa.assertions/") {
+            if let Some(c) = content {
+                kinds.insert(label.clone(), c.typ_str());
+            }
+            if label.starts_with("c2pa.hash.") {
+                if let Some(c) = b.children.iter().find(|c| &c.typ == b"cbor") {
+                    if let Ok(v) = ciborium::from_reader::<ciborium::Value, _>(&store[c.payload_start()..c.end()]) {
+                        let a = cbor_get(&v, "alg").and_then(|a| a.as_text()).map(|s| s.to_string());
+                        let l = cbor_get(&v, "hash").and_then(|h| h.as_bytes()).map(|h| h.len()).filter(|l| *l > 0);
+                        hb = Some((a, l));
+                    }
+                }
+            }
+        }
+    }
+    if !found_claim {
+        return None;
+    }
+    Some((alg, lens, hb, kinds))
+}
+
+fn digest_len(h: &str) -> usize {
+    match h {
+        "sha384" => 48,
+        "sha512" => 64,
+        _ => 32,
+    }
+}
+
+struct Env {
+    assets: Vec<assets::Asset>,
+    pool: IngredientPool,
+}
+
+/// Compares the reported active manifest with the supplied definition.  Returns mismatches as
+/// (field-class, detail).
+fn judge_manifest(c: &Case, env: &Env, m: &Value, store_manifests: &Map<String, Value>, rules: &mut BTreeMap<String, u64>, unjudged: &mut Vec<String>) -> Vec<(String, String)> {
+    let d = &c.def;
+    let mut out: Vec<(String, String)> = Vec::new();
+    let claim_v = d.claim_version.unwrap_or(2);
+    // ---- title
+    let rt = m.get("title").and_then(|t| t.as_str()).map(|s| s.to_string());
+    if rt != d.title {
+        out.push(("title".into(), format!("supplied {:?} reported {:?}", d.title, rt)));
+    }
+    // ---- format
+    let rf = m.get("format").and_then(|t| t.as_str());
+    match (mimes_of(&c.cfg.format), rf) {
+        (Some(exp), Some(r)) => {
+            if !exp.contains(&r) {
+                out.push(("format".into(), format!("supplied {} (= {:?}) reported {r}", c.cfg.format, exp)));
+            }
+        }
+        (Some(_), None) => {
+            if claim_v >= 2 {
+                rule(rules, "v2-claim-has-no-format");
+            } else {
+                out.push(("format".into(), format!("supplied {} reported none (claim v1)", c.cfg.format)));
+            }
+        }
+        (None, _) => unjudged.push("format: no independent MIME mapping for this hint".into()),
+    }
+    // ---- claim version
+    if m.get("claim_version").and_then(|v| v.as_u64()) != Some(claim_v as u64) {
+        out.push(("claim_version".into(), format!("requested {claim_v} reported {:?}", m.get("claim_version"))));
+    }
+    // ---- claim generator info
+    let rc: Vec<Value> = m.get("claim_generator_info").and_then(|v| v.as_array()).cloned().unwrap_or_default();
+    if d.cgi.is_empty() {
+        rule(rules, "cgi-default");
+        if rc.len() != 1 {
+            out.push(("cgi".into(), format!("no generator supplied; reported {} entries", rc.len())));
+        }
+    } else if rc.len() != d.cgi.len() {
+        out.push(("cgi".into(), format!("supplied {} entries reported {}", d.cgi.len(), rc.len())));
+    } else {
+        for (i, (s, r)) in d.cgi.iter().zip(rc.iter()).enumerate() {
+            let mut r = r.clone();
+            if i == 0 {
+                if let Some(o) = r.as_object_mut() {
+                    if o.remove("org.contentauth.c2pa_rs").is_some() {
+                        rule(rules, "cgi-sdk-version-key");
+                    }
+                }
+            }
+            if !veq(s, &r, rules) {
+                out.push(("cgi".into(), format!("entry {i}: supplied {} reported {}", short(s), short(&r))));
+            }
+        }
+    }
+    // ---- assertions
+    let ra: Vec<Value> = m.get("assertions").and_then(|v| v.as_array()).cloned().unwrap_or_default();
+    let mut reported_actions: Vec<Value> = Vec::new();
+    let mut actions_assertions = 0;
+    let mut reported_custom: Vec<(String, Value, bool)> = Vec::new();
+    for a in &ra {
+        let label = a.get("label").and_then(|l| l.as_str()).unwrap_or("").to_string();
+        let data = a.get("data").cloned().unwrap_or(Value::Null);
+        if label.starts_with("c2pa.actions") {
+            actions_assertions += 1;
+            if label != "c2pa.actions" {
+                rule(rules, "actions-label-versioned");
+            }
+            if let Some(o) = data.as_object() {
+                for (k, v) in o {
+                    if k == "actions" {
+                        reported_actions.extend(v.as_array().cloned().unwrap_or_default());
+                    } else {
+                        out.push(("actions-extra-field".into(), format!("actions assertion carries unsupplied field {k}={}", short(v))));
+                    }
+                }
+            }
+            continue;
+        }
+        if label.starts_with("c2pa.hash.") {
+            // never expected in the report; if it shows up it is an automatic addition
+            rule(rules, &format!("hard-binding-listed:{label}"));
+            continue;
+        }
+        let is_json = a.get("kind").and_then(|k| k.as_str()).map(|k| k.eq_ignore_ascii_case("json")).unwrap_or(false);
+        reported_custom.push((canon_label(&label, rules), data, is_json));
+    }
+    rule(rules, "hard-binding-hidden");
+    // expected custom assertions
+    let mut matched = vec![false; reported_custom.len()];
+    for s in &d.assertions {
+        let sl = canon_label(&s.label, rules);
+        let mut scratch = BTreeMap::new();
+        let hit = (0..reported_custom.len()).find(|i| !matched[*i] && reported_custom[*i].0 == sl && veq(&s.data, &reported_custom[*i].1, &mut scratch));
+        match hit {
+            Some(i) => {
+                matched[i] = true;
+                for (k, v) in scratch {
+                    *rules.entry(k).or_insert(0) += v;
+                }
+                if reported_custom[i].2 != s.json_kind {
+                    out.push(("assertion-kind".into(), format!("label {} supplied as {} reported as {}", s.label, if s.json_kind { "json" } else { "cbor" }, if reported_custom[i].2 { "json" } else { "cbor" })));
+                }
+            }
+            None => {
+                let same_label: Vec<String> = reported_custom.iter().filter(|r| r.0 == sl).map(|r| short(&r.1)).collect();
+                let cls = if same_label.is_empty() { "assertion-missing" } else { "assertion-data" };
+                out.push((cls.into(), format!("label {} ({}) supplied data {} ; reported under that label: {:?}", s.label, if s.json_kind { "json" } else { "cbor" }, short(&s.data), same_label)));
+            }
+        }
+    }
+    // a supplied `x.vN` (N >= 2) that comes back as plain `x` with the same data: one cause class
+    let mut version_dropped = 0;
+    for s in &d.assertions {
+        let sl = canon_label(&s.label, &mut BTreeMap::new());
+        if let Some(p) = sl.rfind(".v") {
+            if sl[p + 2..].parse::<u32>().map(|n| n >= 2).unwrap_or(false) {
+                let bare = &sl[..p];
+                let mut scratch = BTreeMap::new();
+                if let Some(i) = (0..reported_custom.len()).find(|i| !matched[*i] && reported_custom[*i].0 == bare && veq(&s.data, &reported_custom[*i].1, &mut scratch)) {
+                    matched[i] = true;
+                    version_dropped += 1;
+                    out.retain(|(f, dd)| !(f == "assertion-missing" && dd.starts_with(&format!("label {} ", s.label))));
+                    out.insert(0, ("assertion-label-version-suffix-dropped".into(), format!("supplied label {} is reported as {bare} (same data)", s.label)));
+                }
+            }
+        }
+    }
+    let _ = version_dropped;
+    for (i, r) in reported_custom.iter().enumerate() {
+        if !matched[i] {
+            out.push(("assertion-unexpected".into(), format!("reported assertion {} = {} was not supplied", r.0, short(&r.1))));
+        }
+    }
+    // ---- actions
+    let mut ract = reported_actions.clone();
+    let first_is = |a: &Vec<Value>, n: &str| a.first().and_then(|x| x.get("action")).and_then(|x| x.as_str()) == Some(n);
+    let supplied_inception = d.actions.first().and_then(|a| a.get("action")).and_then(|a| a.as_str()).map(|a| a == "c2pa.created" || a == "c2pa.opened").unwrap_or(false);
+    match d.intent {
+        Intent::Create if supplied_inception => rule(rules, "inception-supplied-no-auto-action"),
+        Intent::Create => {
+            if first_is(&ract, "c2pa.created") {
+                rule(rules, "auto-action-created");
+                ract.remove(0);
+            } else {
+                out.push(("auto-action".into(), "Create intent but the first reported action is not c2pa.created".into()));
+            }
+        }
+        Intent::Edit => {
+            if first_is(&ract, "c2pa.opened") {
+                rule(rules, "auto-action-opened");
+                ract.remove(0);
+            } else {
+                out.push(("auto-action".into(), "Edit intent but the first reported action is not c2pa.opened".into()));
+            }
+        }
+        Intent::None => {}
+    }
+    if ract.len() != d.actions.len() {
+        out.push(("actions".into(), format!("supplied {} actions, reported {} (after removing the intent's automatic action): {}", d.actions.len(), ract.len(), short(&Value::Array(ract.clone())))));
+    } else {
+        for (i, (s, r)) in d.actions.iter().zip(ract.iter()).enumerate() {
+            if !veq(s, r, rules) {
+                out.push(("actions".into(), format!("action {i}: supplied {} reported {}", short(s), short(r))));
+                break;
+            }
+        }
+    }
+    if actions_assertions > 1 {
+        out.push(("actions".into(), format!("{actions_assertions} actions assertions reported")));
+    }
+    // ---- ingredients
+    let ri: Vec<Value> = m.get("ingredients").and_then(|v| v.as_array()).cloned().unwrap_or_default();
+    struct ExpIng {
+        rel: String,
+        title: Option<String>,
+        formats: Vec<String>,
+        signed: bool,
+        active: Option<String>,
+        what: String,
+    }
+    let mut exp: Vec<ExpIng> = Vec::new();
+    for g in &d.ingredients {
+        let item = &env.pool.items[g.pool];
+        let mut formats = vec![item.format.to_string()];
+        if let Some(mm) = mimes_of(item.format) {
+            formats.extend(mm.iter().map(|m| m.to_string()));
+        }
+        exp.push(ExpIng { rel: g.relationship.clone(), title: g.title.clone(), formats, signed: item.signed, active: item.active_label.clone(), what: format!("{} as {}", item.name, g.relationship) });
+    }
+    if d.intent == Intent::Edit && !d.ingredients.iter().any(|g| g.relationship == "parentOf") {
+        rule(rules, "auto-parent-from-source");
+        let mut formats = vec![c.cfg.format.clone()];
+        if let Some(mm) = mimes_of(&c.cfg.format) {
+            formats.extend(mm.iter().map(|m| m.to_string()));
+        }
+        exp.push(ExpIng { rel: "parentOf".into(), title: None, formats, signed: false, active: None, what: "automatic parent from source".into() });
+    }
+    let mut used = vec![false; ri.len()];
+    for e in &exp {
+        let hit = (0..ri.len()).find(|i| {
+            let r = &ri[*i];
+            !used[*i]
+                && r.get("relationship").and_then(|x| x.as_str()) == Some(e.rel.as_str())
+                && (e.title.is_none() || r.get("title").and_then(|x| x.as_str()) == e.title.as_deref())
+                && r.get("format").and_then(|x| x.as_str()).map(|f| e.formats.iter().any(|x| x == f)).unwrap_or(false)
+                && r.get("active_manifest").is_some() == e.signed
+                && (!e.signed || r.get("active_manifest").and_then(|x| x.as_str()) == e.active.as_deref())
+        });
+        match hit {
+            Some(i) => {
+                used[i] = true;
+                let r = &ri[i];
+                if r.get("format").and_then(|x| x.as_str()) != Some(e.formats[0].as_str()) {
+                    rule(rules, "ingredient-format-mime");
+                }
+                if r.get("thumbnail").is_some() {
+                    if c.cfg.thumbs {
+                        rule(rules, "ingredient-thumbnail-auto");
+                    } else {
+                        out.push(("ingredient-thumbnail".into(), format!("thumbnails disabled but ingredient {} reports a thumbnail", e.what)));
+                    }
+                }
+                if e.signed {
+                    if let Some(l) = &e.active {
+                        if !store_manifests.contains_key(l) {
+                            out.push(("ingredient-manifest".into(), format!("ingredient {} names active manifest {l} which is not in the output store", e.what)));
+                        }
+                    }
+                }
+            }
+            None => {
+                let brief: Vec<Value> = ri.iter().map(|r| json!({"relationship": r.get("relationship"), "title": r.get("title"), "format": r.get("format"), "active_manifest": r.get("active_manifest")})).collect();
+                out.push(("ingredient".into(), format!("no reported ingredient matches supplied {} (title {:?}, formats {:?}, signed {}, active {:?}); reported: {}", e.what, e.title, e.formats, e.signed, e.active, short(&Value::Array(brief)))));
+            }
+        }
+    }
+    if used.iter().filter(|u| !**u).count() > 0 {
+        out.push(("ingredient-unexpected".into(), format!("{} reported ingredients were not supplied", used.iter().filter(|u| !**u).count())));
+    }
+    // ---- thumbnail
+    if m.get("thumbnail").is_some() {
+        if c.cfg.thumbs {
+            rule(rules, "claim-thumbnail-auto");
+        } else {
+            out.push(("thumbnail".into(), "thumbnails disabled and none supplied, but a claim thumbnail is reported".into()));
+        }
+    }
+    // ---- redactions
+    let mut rr: Vec<String> = m.get("redactions").and_then(|v| v.as_array()).map(|a| a.iter().filter_map(|x| x.as_str().map(|s| s.to_string())).collect()).unwrap_or_default();
+    let mut sr = d.redactions.clone();
+    rr.sort();
+    sr.sort();
+    let before = rr.len();
+    rr.dedup();
+    if rr.len() != before {
+        rule(rules, "observed:redaction-listed-more-than-once");
+    }
+    sr.dedup();
+    if rr != sr {
+        out.push(("redactions".into(), format!("supplied {:?} reported {:?}", sr, rr)));
+    }
+    // ---- signature algorithm
+    let ralg = m.get("signature_info").and_then(|s| s.get("alg")).and_then(|a| a.as_str()).unwrap_or("");
+    if !ralg.eq_ignore_ascii_case(&c.cfg.alg) {
+        out.push(("signature-alg".into(), format!("signed with {} reported {ralg}", c.cfg.alg)));
+    }
+    // ---- vendor
+    if let Some(v) = &d.vendor {
+        let l = m.get("label").and_then(|l| l.as_str()).unwrap_or("");
+        if l.to_lowercase().split(':').any(|part| part == v.to_lowercase()) {
+            rule(rules, "vendor-in-manifest-label");
+        } else {
+            out.push(("vendor".into(), format!("vendor {v} not reflected in manifest label {l}")));
+        }
+    }
+    out
+}
+
+fn run_case(c: &Case, env: &Env, dump: bool) -> Res {
+    let mut res = Res::default();
+    let d = &c.def;
+    let claim_v = d.claim_version.unwrap_or(2);
+    let hash = d.hash_alg.clone().unwrap_or_else(|| "default".into());
+    let fmt_class = mime_of(&c.cfg.format).unwrap_or("?").to_string();
+    let cfg_class = format!("{}|{}|{}|v{}|{}{}|{}", fmt_class, c.cfg.alg, hash, claim_v, c.cfg.mode, if c.cfg.compressed { "+brob" } else { "" }, if c.cfg.thumbs { "thumbs" } else { "nothumbs" });
+    let Some(asset) = env.assets.iter().find(|a| a.name == c.cfg.asset) else {
+        res.trivial = true;
+        res.class = "trivial:no-asset".into();
+        return res;
+    };
+    let nonascii_tail = d.assertions.iter().any(|a| defgen::label_has_nonascii_tail(&a.label) || defgen::label_has_nonascii_tail(a.label.trim_end_matches(|ch: char| ch.is_ascii_digit()).trim_end_matches(".v")));
+    let hint = |stage: &str, defect: &str| -> String {
+        let cause = if nonascii_tail && defect.starts_with("panic") { "nonascii-label-tail".to_string() } else { format!("v{claim_v}|{}", c.cfg.mode) };
+        format!("{stage}|{defect}|{cause}")
+    };
+    let ctx = defgen::context(true, c.cfg.thumbs, c.cfg.compressed, &json!({"verify": {"remote_manifest_fetch": false}}));
+    let mut b = match report::catch_sdk(|| d.build(ctx, &env.pool)) {
+        Ok(Ok(b)) => b,
+        Ok(Err(e)) => {
+            res.violation = Some((hint("build", &format!("err:{}", e.split(':').next().unwrap_or(""))), format!("building the definition failed: {e}")));
+            res.class = format!("{cfg_class}|build-error");
+            return res;
+        }
+        Err(p) => {
+            res.violation = Some((hint("build", "panic"), format!("panic while building: {p}")));
+            res.class = format!("{cfg_class}|build-panic");
+            return res;
+        }
+    };
+    match c.cfg.mode.as_str() {
+        "sidecar" => {
+            b.set_no_embed(true);
+        }
+        "remote+embedded" => {
+            b.set_remote_url("https://verif.invalid/manifests/m.c2pa");
+        }
+        _ => {}
+    }
+    let signer = signers::test_signer(&c.cfg.alg);
+    let mut src = Cursor::new(asset.bytes.clone());
+    let mut dst = Cursor::new(Vec::new());
+    let signed = report::catch_sdk(|| b.sign(signer.as_ref(), &c.cfg.format, &mut src, &mut dst));
+    let store = match signed {
+        Ok(Ok(s)) => s,
+        Ok(Err(e)) => {
+            let kind = report::err_kind(&e);
+            if c.cfg.mode == "remote+embedded" && (kind.contains("Xmp") || kind == "UnsupportedType" || kind == "NotImplemented") {
+                res.unjudged.push(format!("remote-reference-unsupported:{fmt_class}:{kind}"));
+                res.class = format!("{cfg_class}|unjudged-remote-ref");
+                res.trivial = true;
+                return res;
+            }
+            res.violation = Some((hint("sign", &format!("err:{kind}")), format!("sign failed on a well-formed definition: {e:?}")));
+            res.class = format!("{cfg_class}|sign-error:{kind}");
+            return res;
+        }
+        Err(p) => {
+            res.violation = Some((hint("sign", "panic"), format!("panic in sign: {p}")));
+            res.class = format!("{cfg_class}|sign-panic");
+            return res;
+        }
+    };
+    let out = dst.into_inner();
+    // ---- read back
+    let rctx = defgen::context(true, false, false, &json!({"verify": {"remote_manifest_fetch": false}}));
+    let fmt = c.cfg.format.clone();
+    let sidecar = c.cfg.mode == "sidecar";
+    let (st, ou) = (store.clone(), out.clone());
+    let read = report::catch_sdk(move || {
+        let r = if sidecar { Reader::from_context(rctx).with_manifest_data_and_stream(&st, &fmt, Cursor::new(ou)) } else { Reader::from_context(rctx).with_stream(&fmt, Cursor::new(ou)) };
+        r.map(|r| (r.json(), format!("{:?}", r.validation_state()), report::codes_of(&r), r.remote_url().map(|s| s.to_string()), r.is_embedded()))
+    });
+    let (json_s, state, codes, remote, embedded) = match read {
+        Ok(Ok(x)) => x,
+        Ok(Err(e)) => {
+            let kind = report::err_kind(&e);
+            res.violation = Some((hint("read", &format!("err:{kind}")), format!("reading the signed output failed: {e:?}")));
+            res.class = format!("{cfg_class}|read-error:{kind}");
+            return res;
+        }
+        Err(p) => {
+            res.violation = Some((hint("read", "panic"), format!("panic while reading the signed output: {p}")));
+            res.class = format!("{cfg_class}|read-panic");
+            return res;
+        }
+    };
+    let failures: Vec<String> = codes.iter().filter(|c| c.1 == "failure").map(|c| format!("{}:{}", c.0, c.2)).collect();
+    if state != "Trusted" {
+        let first = failures.first().cloned().unwrap_or_default();
+        res.violation = Some((hint("read", &format!("state:{state}:{first}")), format!("read-back state {state} (expected Trusted); failures {:?}", failures)));
+        res.class = format!("{cfg_class}|state:{state}");
+        return res;
+    }
+    let v: Value = serde_json::from_str(&json_s).unwrap_or(Value::Null);
+    let am = v.get("active_manifest").and_then(|a| a.as_str()).unwrap_or("").to_string();
+    let empty = Map::new();
+    let manifests = v.get("manifests").and_then(|m| m.as_object()).unwrap_or(&empty);
+    let Some(m) = manifests.get(&am) else {
+        res.violation = Some((hint("report", "no-active-manifest"), "report has no active manifest".into()));
+        res.class = format!("{cfg_class}|no-active");
+        return res;
+    };
+    let mut mism = judge_manifest(c, env, m, manifests, &mut res.rules, &mut res.unjudged);
+    // ---- delivery mode facts
+    match c.cfg.mode.as_str() {
+        "remote+embedded" => {
+            if remote.as_deref() != Some("https://verif.invalid/manifests/m.c2pa") || !embedded {
+                mism.push(("remote-url".into(), format!("remote url reported {:?}, embedded {embedded}", remote)));
+            }
+        }
+        "embedded" => {
+            if !embedded {
+                mism.push(("embedded-flag".into(), "embedded manifest reported as not embedded".into()));
+            }
+        }
+        _ => {}
+    }
+    // ---- hash algorithm facts from the store itself
+    let want = d.hash_alg.clone().unwrap_or_else(|| "sha256".into());
+    match claim_hash_facts(&store) {
+        Some((alg, lens, hb, kinds)) => {
+            if alg.as_deref() != Some(want.as_str()) {
+                mism.push(("hash-alg".into(), format!("claim alg {:?}, requested {want}", alg)));
+            }
+            if let Some(l) = lens.iter().find(|l| **l != digest_len(&want)) {
+                mism.push(("hash-alg".into(), format!("an assertion digest in the claim has {l} bytes, requested {want}")));
+            }
+            match hb {
+                Some((a, l)) => {
+                    if a.as_deref().map(|a| a != want).unwrap_or(false) || l.map(|l| l != digest_len(&want)).unwrap_or(false) {
+                        mism.push(("hash-alg".into(), format!("hard binding alg {:?} digest {:?} bytes, requested {want}", a, l)));
+                    }
+                }
+                None => mism.push(("hard-binding".into(), "no c2pa.hash.* assertion found in the signed store".into())),
+            }
+            // stored content kind per supplied assertion (first instance only; instances carry __n)
+            for s in &d.assertions {
+                let stored = kinds.get(&s.label).or_else(|| s.label.strip_suffix(".v1").and_then(|l| kinds.get(l)));
+                if let Some(k) = stored {
+                    let dup = d.assertions.iter().filter(|x| x.label == s.label).count() > 1;
+                    if !dup && (k == "json") != s.json_kind {
+                        mism.push(("assertion-kind".into(), format!("label {} supplied as {} stored in a `{k}` box", s.label, if s.json_kind { "json" } else { "cbor" })));
+                    }
+                }
+            }
+        }
+        None => {
+            rule(&mut res.rules, if c.cfg.compressed { "hash-facts-unobservable:compressed" } else { "hash-facts-unobservable" });
+            if !c.cfg.compressed {
+                res.unjudged.push("hash-alg: claim not found by the independent walker".into());
+            }
+        }
+    }
+    if dump {
+        res.dump = Some(format!("CASE cfg={:?}\n def={}\n api={:?}\n actions(api={})={:?}\n ingredients={:?} intent={:?}\n state={state} failures={:?}\n manifest={}\n mismatches={:?}\n rules={:?}\n", c.cfg, d.definition_json(), d.assertions.iter().filter(|a| a.via == defgen::Via::Api).map(|a| (&a.label, a.json_kind, short(&a.data))).collect::<Vec<_>>(), d.actions_via_api, d.actions, d.ingredients, d.intent, failures, serde_json::to_string_pretty(m).unwrap_or_default(), mism, res.rules));
+    }
+    res.class = format!("{cfg_class}|{}|{}", d.shape(), if mism.is_empty() { "held" } else { "mismatch" });
+    if let Some((field, detail)) = mism.first() {
+        let all: Vec<String> = mism.iter().map(|(f, d)| format!("[{f}] {d}")).collect();
+        res.violation = Some((hint("report", &format!("field:{field}")), all.join(" ;; ")));
+        let _ = detail;
+    }
+    res
+}
+
+fn case_json(c: &Case) -> Value {
+    json!({"def": c.def, "cfg": c.cfg, "directed": c.directed})
+}
+
+fn asset_list(quick: bool) -> Vec<assets::Asset> {
+    let mut all = assets::tiny_assets();
+    all.extend(assets::fixture_assets(if quick { 110_000 } else { 400_000 }));
+    all
+}
+
+fn make_case(rng: &mut Rng, env: &Env, row: &[usize]) -> Case {
+    // row: asset, alg, hash, claimv, compressed, mode, thumbs, intent, n_ingredients, assertion-class
+    let a = &env.assets[row[0] % env.assets.len()];
+    let claim_version = if row[3] == 1 { Some(1) } else { None };
+    let mut opts = GenOpts::default();
+    opts.claim_version = claim_version;
+    opts.hash_alg = defgen::HASH_ALGS[row[2] % 4];
+    opts.intent = Some([Intent::None, Intent::Create, Intent::Edit][row[7] % 3].clone());
+    opts.n_ingredients = Some(row[8] % 4);
+    opts.n_assertions = match row[9] % 4 {
+        0 => Some(0),
+        1 => Some(1),
+        2 => Some(2 + rng.usize(4)),
+        _ => Some(12),
+    };
+    // 64 KB payloads only on a share of the cases (run time), always allowed in the "12 assertions" class
+    opts.big_payloads = row[9] % 4 == 3 || rng.chance(1, 3);
+    let choices = env.pool.choices(claim_version);
+    let mut def = defgen::gen_def(rng, &opts, &choices);
+    if rng.chance(1, 3) {
+        for k in 0..def.ingredients.len() {
+            if def.ingredients[k].relationship != "inputTo" && rng.bool() {
+                def.add_redaction(k, &env.pool);
+            }
+        }
+    }
+    let format = if rng.bool() { mime_of(a.format).unwrap_or(a.format).to_string() } else { a.format.to_string() };
+    Case {
+        def,
+        cfg: Cfg { asset: a.name.clone(), format, alg: signers::ALGS[row[1] % 7].0.to_string(), compressed: row[4] % 2 == 1, mode: MODES[row[5] % 3].to_string(), thumbs: row[6] % 2 == 1 },
+        directed: None,
+    }
+}
+
+fn directed_cases(env: &Env) -> Vec<Case> {
+    let base = |label: &str, name: &'static str| -> Case {
+        let def = GenDef {
+            title: Some("directed".into()),
+            cgi: vec![],
+            vendor: None,
+            claim_version: None,
+            hash_alg: None,
+            assertions: vec![defgen::GenAssertion { label: label.into(), json_kind: false, via: defgen::Via::Definition, data: json!({"k": 1}), steer: None }],
+            actions: vec![],
+            actions_via_api: false,
+            ingredients: vec![],
+            intent: Intent::Create,
+            redactions: vec![],
+        };
+        Case { def, cfg: Cfg { asset: "tiny.png".into(), format: "image/png".into(), alg: "ed25519".into(), compressed: false, mode: "embedded".into(), thumbs: false }, directed: Some(name) }
+    };
+    let _ = env;
+    vec![
+        // a custom label whose last component starts with a two-byte UTF-8 character
+        base("org.verif.ünï", "nonascii-label-tail"),
+        // the same with a version suffix: signs, then panics in the reader
+        base("org.verif.ünï.v2", "nonascii-label-tail-versioned"),
+        // control: non-ASCII in a middle component
+        base("org.ünï.note", "nonascii-label-middle"),
+    ]
+}
+
+fn main() {
+    let mut run = Run::from_args("C03", "exploration");
+    report::quiet_panics();
+    run.rule = "cases = pairwise covering array over (asset incl. every writable tiny format + small fixtures, 7 signing algs, hash alg {default,sha256,sha384,sha512}, claim v1/v2, compressed, embedded/sidecar/remote+embedded, thumbnails, intent {none,create,edit}, 0-3 ingredients, assertion count class) + seeded random rows; each row gets a definition from the defgen grammar (reverse-DNS / non-ASCII / repeated / versioned labels; JSON+CBOR payload trees steered to 23/24, 255/256, 65535/65536 bytes; actions; signed+unsigned ingredients; redactions). Non-trivial = signed, read back Trusted and compared field by field; distinct = (format, alg, hash, claim version, mode, thumbs, definition shape, outcome).".into();
+    run.assumptions = vec![
+        "the rule table in the module doc lists the automatic additions that are subtracted; each application is counted (rule:* counters)".into(),
+        "ingredient `label` (a builder-side id for linking actions) and ingredient titles that were not supplied are not judged".into(),
+        "remote+embedded on a format that cannot carry a remote reference (error kind Xmp*/UnsupportedType) is unjudged".into(),
+        "claim alg / digest lengths are read from the returned store with the harness's own JUMBF walker; not observable for compressed manifests".into(),
+    ];
+    let env = Env { assets: asset_list(run.quick()), pool: defgen::ingredient_pool() };
+    if env.pool.n_signed < 4 {
+        run.inconclusive(format!("ingredient pool has only {} signed items", env.pool.n_signed));
+    }
+
+    if let Some(p) = run.replay.clone() {
+        let v: Value = serde_json::from_slice(&std::fs::read(&p).expect("replay file")).expect("json");
+        let w = &v["witness"];
+        let c = Case { def: serde_json::from_value(w["def"].clone()).expect("def"), cfg: serde_json::from_value(w["cfg"].clone()).expect("cfg"), directed: None };
+        let r = run_case(&c, &env, true);
+        println!("{}", r.dump.unwrap_or_default());
+        println!("replay: class={} violation={:?}", r.class, r.violation);
+        std::process::exit(if r.violation.is_some() { 1 } else { 0 });
+    }
+    let dump_n: usize = std::env::var("C03_DUMP").ok().and_then(|s| s.parse().ok()).unwrap_or(0);
+
+    let mut rng = Rng::new(run.seed, "c03");
+    let levels = [env.assets.len(), 7, 4, 2, 2, 3, 2, 3, 4, 4];
+    let mut rows = defgen::pairwise(&mut rng, &levels);
+    let pairwise_rows = rows.len();
+    let total = run.tier.pick(360usize, 20_000usize).max(pairwise_rows);
+    while rows.len() < total {
+        rows.push(levels.iter().map(|l| rng.usize(*l)).collect());
+    }
+    let mut cases = directed_cases(&env);
+    let n_directed = cases.len();
+    for (i, row) in rows.iter().enumerate() {
+        let mut r = rng.fork(i as u64);
+        cases.push(make_case(&mut r, &env, row));
+    }
+    let results = par::par_map_watch(
+        cases.len(),
+        600,
+        |i| println!("INCONCLUSIVE: property=C03 watchdog: case {i} exceeded 600 s"),
+        |i| run_case(&cases[i], &env, i < n_directed + dump_n && dump_n > 0),
+    );
+    let mut unjudged: BTreeMap<String, u64> = BTreeMap::new();
+    for (i, r) in results.iter().enumerate() {
+        run.eval();
+        if let Some(d) = &r.dump {
+            println!("{d}");
+        }
+        for (k, v) in &r.rules {
+            run.count(&format!("rule:{k}"), *v);
+        }
+        for u in &r.unjudged {
+            *unjudged.entry(u.clone()).or_insert(0) += 1;
+        }
+        if !r.trivial {
+            run.nontrivial(r.class.clone());
+        } else {
+            run.count("trivial", 1);
+        }
+        let kind = if r.violation.is_some() { "violating" } else if r.trivial { "trivial" } else { "held" };
+        run.sample(kind, 2, json!({"cfg": cases[i].cfg, "shape": cases[i].def.shape(), "definition": short(&cases[i].def.definition_json())}));
+        if let Some((sig, what)) = &r.violation {
+            run.violation(sig, what, case_json(&cases[i]));
+        }
+    }
+    run.set("pairwise_rows", json!(pairwise_rows));
+    run.set("cases", json!(cases.len()));
+    run.set("assets", json!(env.assets.iter().map(|a| a.name.clone()).collect::<Vec<_>>()));
+    run.set("ingredient_pool", json!(env.pool.items.iter().map(|i| i.name.clone()).collect::<Vec<_>>()));
+    run.set("unjudged", json!(unjudged));
+    run.engine("release", true, json!({"threads": par::workers()}));
+    run.finish(60);
 }
